@@ -1503,6 +1503,12 @@ fn lookalike_twins() -> Vec<(V, V)> {
     out.push((V::A(vec![V::A(vec![st("a")]), V::A(vec![st("b")])]), V::A(vec![V::A(vec![st("a"), st("b")])])));
     out.push((V::A(vec![st("a"), V::A(vec![st("b")])]), V::A(vec![st("a"), st("b")])));
     out.push((V::A(vec![V::A(vec![])]), V::A(vec![])));
+    // same leaves in the same order, brackets placed differently
+    out.push((V::A(vec![V::A(vec![V::I(1)]), V::I(2)]), V::A(vec![V::A(vec![V::I(1), V::I(2)])])));
+    out.push((V::A(vec![V::A(vec![]), V::A(vec![])]), V::A(vec![V::A(vec![V::A(vec![])])])));
+    out.push((V::A(vec![V::A(vec![st("a")]), st("b")]), V::A(vec![V::A(vec![st("a"), st("b")])])));
+    out.push((V::A(vec![st("a"), V::A(vec![st("b"), st("c")])]), V::A(vec![V::A(vec![st("a"), st("b")]), st("c")])));
+    out.push((V::A(vec![V::I(1), V::A(vec![V::I(2)]), V::I(3)]), V::A(vec![V::I(1), V::A(vec![V::I(2), V::I(3)])])));
     out.push((V::A(vec![V::I(1), V::I(2)]), V::A(vec![V::I(12)])));
     out.push((V::A(vec![st("1"), st("2")]), V::A(vec![st("12")])));
     out.push((V::A(vec![V::I(1), V::I(2)]), V::A(vec![V::I(1), st("2")])));
@@ -1535,9 +1541,11 @@ pub fn run_lookalike(s: &mut Src, ctx: &mut Ctx) -> Verdict {
     }
     let (x, y) = twins[k].clone();
     ctx.describe(|| format!("lookalike values {:?} / {:?}: first fact holds {:?}, index {}", x, y, if first_x { &x } else { &y }, ["never", "before the inserts", "between the inserts", "after the inserts", "created, dropped, created again"][index_when]));
+    // (field b holds x in both facts: a node that compares a with b tells the two facts apart whatever the values are)
     let mk = |v: &V| {
         let mut t = TypedFacts::new();
         t.set("a", fv(v));
+        t.set("b", fv(&x));
         t
     };
     let (s0, s1) = if first_x { (mk(&x), mk(&y)) } else { (mk(&y), mk(&x)) };
@@ -1578,8 +1586,8 @@ pub fn run_lookalike(s: &mut Src, ctx: &mut Ctx) -> Verdict {
         V::S(t) => t.clone(),
         _ => "a".to_string(),
     };
-    for op in ["==", "!=", "contains", ">"] {
-        let node = ReteUlNode::UlAlpha(AlphaNode { field: "a".to_string(), operator: op.to_string(), value: needle.clone() });
+    for (op, value) in [("==", needle.clone()), ("!=", needle.clone()), ("contains", needle.clone()), (">", needle.clone()), ("==", "b".to_string()), ("!=", "b".to_string())] {
+        let node = ReteUlNode::UlAlpha(AlphaNode { field: "a".to_string(), operator: op.to_string(), value: value.clone() });
         let mut memo = MemoizedEvaluator::new();
         for (i, set) in [&s0, &s1, &s0, &s1].iter().enumerate() {
             let direct = node.evaluate_typed(set);
@@ -1587,7 +1595,7 @@ pub fn run_lookalike(s: &mut Src, ctx: &mut Ctx) -> Verdict {
             if got != direct {
                 return Verdict::fail(
                     "memo-mismatch:lookalike-values",
-                    format!("evaluation {} of (a {} {:?}) on a = {:?}: memoised {} but evaluate_typed {}", i, op, needle, set.get("a"), got, direct),
+                    format!("evaluation {} of (a {} {:?}) on a = {:?}, b = {:?}: memoised {} but evaluate_typed {}", i, op, value, set.get("a"), set.get("b"), got, direct),
                 );
             }
         }
